@@ -103,6 +103,7 @@ class Interp:
             k for k, v in fn.mod.local_imports(fn).items() if v == "unyt.physical_constants"
         }
         self.written = False
+        self.depth = 0
         self.calls = 0
         self.r4_bad = []
         self.r5_bad = []
@@ -188,13 +189,45 @@ class Interp:
         f = norm(n.func)
         if f == f"{self.selfname}._get_out":
             return None
+        if isinstance(n.func, ast.Attribute) and norm(n.func.value) == self.selfname and not f.startswith(("np.", "numpy.")):
+            # a helper method of the equivalence class: its body is interpreted with the actual values (the caller's
+            # x stays "x" inside: out= threading and read-after-write are judged on the value, not on the name)
+            cls = self.fn.cls
+            h = self.fn.mod.funcs.get(f"{cls}.{n.func.attr}") or self.fn.mod.funcs.get(f"Equivalence.{n.func.attr}")
+            if h and not n.keywords and self.depth < 3:
+                hf = h[0]
+                hp = [a_.arg for a_ in hf.node.args.args]
+                if len(hp) == len(n.args) + 1:
+                    sub = Interp.__new__(Interp)
+                    sub.__dict__.update(self.__dict__)
+                    sub.fn = hf
+                    sub.selfname = hp[0]
+                    sub.depth = self.depth + 1
+                    sub.env = {p_: self.ev(a_) for p_, a_ in zip(hp[1:], n.args)}
+                    sub.xname = next((p_ for p_, v_ in sub.env.items() if isinstance(v_, Q) and v_.isx), self.xname)
+                    sub.pcnames = {k for k, v in hf.mod.local_imports(hf).items() if v == "unyt.physical_constants"} | self.pcnames
+                    r = sub.run(hf.body)
+                    self.written, self.calls = sub.written, sub.calls
+                    if r is None:
+                        raise AnalysisError(f"{self.fn.where(n)}: helper {n.func.attr} returns nothing")
+                    return Q(r.dim, r.mono, kind=r.kind, alg=r.alg)
+            raise AnalysisError(f"{self.fn.where(n)}: unsupported call {f}")
         if not f.startswith(("np.", "numpy.")):
             raise AnalysisError(f"{self.fn.where(n)}: unsupported call {f}")
         op = f.split(".", 1)[1]
         self.calls += 1
         # R4: out threading
         out = kwarg_of(n, "out")
-        if out is None or norm(out) != f"{self.selfname}._get_out({self.xname})":
+        good_out = False
+        if isinstance(out, ast.Call) and norm(out.func) == f"{self.selfname}._get_out" and len(out.args) == 1:
+            saved = self.written
+            self.written = False  # naming x as the out target is not a read
+            try:
+                ov = self.ev(out.args[0], in_getout=True)
+            finally:
+                self.written = saved
+            good_out = isinstance(ov, Q) and ov.isx
+        if not good_out:
             self.r4_bad.append(n)
         args = [self.ev(a) for a in n.args]
         if any(k.arg is None for k in n.keywords) or any(
